@@ -336,6 +336,61 @@ theorem C07_session_answered_once (cfg : Cfg) (pre post : List Case) (c : Case) 
   simp only [Case.written, ← hadd]
   exact hrep
 
+/-! ### pending local requests and handlers that return an error -/
+
+theorem isRequest_not_reply (t : String) (h : isRequestTyp t = true) : isReplyTyp t = false := by
+  simp only [isRequestTyp, Bool.or_eq_true, beq_iff_eq] at h
+  rcases h with h | h <;> simp [isReplyTyp, h]
+
+/-- **whatever is pending**: an incoming element whose type is not result / error — in
+particular every get and set — never consults the table of pending local requests: for every
+table (any ids, equal to the element's id or not) the step is the one of
+`handleInputStream`, the table is unchanged and no waiter receives anything.  All the
+theorems above therefore hold with any number of local requests outstanding. -/
+theorem C07_requests_ignore_pending (cfg : Cfg) (pend : List Pend) (rs : RS) (prog : Prog)
+    (n : Name) (as : List Attr) (rs1 : RS)
+    (hnext : ({ rs with dOut := 0, sticky := none } : RS).next = (.tok (.start n as), rs1))
+    (hty : isReplyTyp (getTyp (blankFrom cfg n as)) = false) :
+    handleInputStreamP cfg pend rs prog = (handleInputStream cfg rs prog, pend, none) := by
+  simp [handleInputStreamP, deliveredTo, hnext, hty]
+
+/-- with nothing pending the table plays no role at all (the `serve` of the other theorems) -/
+theorem C07_no_pending (cfg : Cfg) (rs : RS) (prog : Prog) :
+    handleInputStreamP cfg [] rs prog = (handleInputStream cfg rs prog, [], none) := by
+  unfold handleInputStreamP deliveredTo
+  generalize ({ rs with dOut := 0, sticky := none } : RS).next = r
+  obtain ⟨rd, rs1⟩ := r
+  cases rd with
+  | tok t =>
+    cases t <;> simp [pendMatch]
+  | err e => simp
+  | eof => simp
+
+/-- a response handed to a waiting local request is not given to the handler and nothing is
+written for it: **replies are never answered**, also on this path -/
+theorem C07_delivered_silent (cfg : Cfg) (pend : List Pend) (rs : RS) (prog : Prog)
+    (p : Pend) (rs1 : RS) (h : deliveredTo cfg pend rs = some (p, rs1)) :
+    (handleInputStreamP cfg pend rs prog).1.inv = none ∧
+    (∃ w, (match (handleInputStreamP cfg pend rs prog).1 with
+            | .next _ w _ => w | .stop _ w _ => w) = w ∧ w = []) := by
+  unfold handleInputStreamP
+  rw [h]
+  simp only
+  split <;> simp [Step.inv]
+
+/-- **a handler that returns an error value** (a plain error, `io.EOF`, a `stanza.Error`, a
+stream error), after writing anything: the session adds nothing — no automatic reply, not for
+requests and not for replies — keeps what the handler wrote, and ends with that error (a
+stream error is returned as such, everything else as the handler's error) -/
+theorem C07_handler_error (cfg : Cfg) (n : Name) (as : List Attr) (rs1 : RS) (prog : Prog)
+    (h : prog.ret = .fail ∨ prog.ret = .eof ∨ prog.ret = .stanzaErr ∨ prog.ret = .streamErr) :
+    ∃ inv e, handleElem cfg n as rs1 prog = .stop (some inv) (writesOf prog.ops) (.error e) ∧
+      (prog.ret = .streamErr → e = .streamError "policy-violation") ∧
+      (prog.ret ≠ .streamErr → e = .handler) := by
+  unfold handleElem
+  simp only [runOps_ws]
+  rcases h with h | h | h | h <;> simp [h, encAll_out, WS.init]
+
 /-! ### with the multiplexer in front -/
 
 /-- **mux, nothing registered**: for a get/set iq with a payload element and addresses that
